@@ -18,6 +18,9 @@ type TypeOpt struct {
 	Maybe     bool // allow optional types
 	Bot       bool // allow ⊥ as a container element
 	MaxFields int
+	// MaybeInFields: optionals only as the type of an object field (the only
+	// place host data can express them)
+	MaybeInFields bool
 }
 
 func pick[T any](t *rapid.T, label string, xs []T) T {
@@ -56,7 +59,7 @@ func typ(t *rapid.T, o TypeOpt, d int) *model.Type {
 		return leaf()
 	}
 	kinds := []string{"leaf", "leaf", "list", "map", "obj"}
-	if o.Maybe {
+	if o.Maybe && !o.MaybeInFields {
 		kinds = append(kinds, "maybe")
 	}
 	if o.Fun {
@@ -87,7 +90,11 @@ func typ(t *rapid.T, o TypeOpt, d int) *model.Type {
 		names := DistinctNames(t, n)
 		fs := make([]model.Field, n)
 		for i := range fs {
-			fs[i] = model.Field{Name: names[i], T: typ(t, o, d-1)}
+			ft := typ(t, o, d-1)
+			if o.Maybe && o.MaybeInFields && ft.K != model.TMaybe && rapid.IntRange(0, 3).Draw(t, "optfield") == 0 {
+				ft = model.Maybe(ft)
+			}
+			fs[i] = model.Field{Name: names[i], T: ft}
 		}
 		return model.Obj(fs...)
 	}
